@@ -2,5 +2,842 @@
 import KB.Spec
 import KB.Backend
 import KB.Lemmas.Coder
+import KB.Lemmas.Engine
+import KB.Lemmas.Scan
+import KB.Lemmas.Floor
 namespace KB
+open Generated
+
+/-! ### histories (pure) -/
+
+abbrev RevSorted (h : List HWrite) : Prop := h.Pairwise (fun a b => a.rev < b.rev)
+
+theorem filter_rev_split (h : List HWrite) (hs : RevSorted h) (R R' : Nat) (hR : R ≤ R') :
+    h.filter (fun w => decide (w.rev ≤ R')) =
+      h.filter (fun w => decide (w.rev ≤ R)) ++ h.filter (fun w => decide (R + 1 ≤ w.rev) && decide (w.rev ≤ R')) := by
+  induction h with
+  | nil => rfl
+  | cons x xs ih =>
+    have hs' := List.pairwise_cons.1 hs
+    by_cases hx : x.rev ≤ R
+    · have h1 : x.rev ≤ R' := by omega
+      have h2 : ¬ (R + 1 ≤ x.rev) := by omega
+      simp only [List.filter_cons, hx, h1, h2, decide_true, decide_false, Bool.false_and, if_true,
+        Bool.false_eq_true, if_false, List.cons_append, ih hs'.2]
+    · have hnil : (x :: xs).filter (fun w => decide (w.rev ≤ R)) = [] := by
+        apply List.filter_eq_nil_iff.2
+        intro y hy
+        rcases List.mem_cons.1 hy with rfl | hy
+        · simpa using hx
+        · have := hs'.1 y hy; simp; omega
+      rw [hnil, List.nil_append]
+      apply List.filter_congr
+      intro y hy
+      have : R + 1 ≤ y.rev := by
+        rcases List.mem_cons.1 hy with rfl | hy
+        · omega
+        · have := hs'.1 y hy; omega
+      simp [this]
+
+theorem snapshot_events (h : List HWrite) (hs : RevSorted h) (R R' : Nat) (hR : R ≤ R') :
+    (eventsBetween h (R + 1) R').foldl Snap.apply (snapshotAt h R) = snapshotAt h R' := by
+  unfold snapshotAt eventsBetween
+  rw [filter_rev_split h hs R R' hR, List.foldl_append]
+
+theorem snap_filter_apply_of_not (p : Bytes → Bool) (S : Snap) (w : HWrite) (hw : p w.key = false) :
+    (S.apply w).filter (fun e => p e.1) = S.filter (fun e => p e.1) := by
+  have hdel : (S.del w.key).filter (fun e => p e.1) = S.filter (fun e => p e.1) := by
+    unfold Snap.del
+    rw [List.filter_filter]
+    apply List.filter_congr
+    intro e _
+    cases hp : p e.1 with
+    | false => rfl
+    | true =>
+      have : e.1 ≠ w.key := by intro he; rw [he, hw] at hp; cases hp
+      simp [this]
+  unfold Snap.apply
+  cases w.val with
+  | none => exact hdel
+  | some v => simp [Snap.set, List.filter_append, hdel, hw]
+
+theorem snap_filter_apply_of_pos (p : Bytes → Bool) (S : Snap) (w : HWrite) (hw : p w.key = true) :
+    (S.apply w).filter (fun e => p e.1) = Snap.apply (S.filter (fun e => p e.1)) w := by
+  have hdel : (S.del w.key).filter (fun e => p e.1) = Snap.del (S.filter (fun e => p e.1)) w.key := by
+    unfold Snap.del
+    rw [List.filter_filter, List.filter_filter]
+    apply List.filter_congr
+    intro e _
+    exact Bool.and_comm _ _
+  unfold Snap.apply
+  cases w.val with
+  | none => exact hdel
+  | some v => simp [Snap.set, List.filter_append, hdel, hw]
+
+theorem foldl_apply_filter (p : Bytes → Bool) (evs : List HWrite) (S : Snap) :
+    (evs.filter (fun w => p w.key)).foldl Snap.apply (S.filter (fun e => p e.1)) =
+      (evs.foldl Snap.apply S).filter (fun e => p e.1) := by
+  induction evs generalizing S with
+  | nil => rfl
+  | cons w ws ih =>
+    cases hw : p w.key with
+    | false =>
+      simp only [List.filter_cons, hw, Bool.false_eq_true, if_false, List.foldl_cons]
+      rw [← ih, snap_filter_apply_of_not p S w hw]
+    | true =>
+      simp only [List.filter_cons, hw, if_true, List.foldl_cons]
+      rw [← ih, snap_filter_apply_of_pos p S w hw]
+
+/-! ### the shape of one request (no faults) -/
+
+/-- acknowledged with both records written, or refused with the store untouched -/
+def CommitShape (st : Store) (ik vk v : Bytes) (r : CommitRes) (st' : Store) : Prop :=
+  (r = .ok ∧ ∃ iv, st' = (st.put ik iv).put vk v) ∨ (r ≠ .ok ∧ st' = st)
+
+theorem doCommit_pine_put (c : Cfg) (st : Store) (ik new vk v : Bytes) :
+    CommitShape st ik vk v (doCommit c st [BOp.pine ik new, BOp.put vk v] .none).1
+      (doCommit c st [BOp.pine ik new, BOp.put vk v] .none).2 := by
+  unfold doCommit commit CommitShape
+  simp only [applyOps, applyOp]
+  cases st.get ik with
+  | none => left; exact ⟨rfl, _, rfl⟩
+  | some old => right; simp
+
+theorem doCommit_cas_put (c : Cfg) (st : Store) (ik new old vk v : Bytes) :
+    CommitShape st ik vk v (doCommit c st [BOp.cas ik new old, BOp.put vk v] .none).1
+      (doCommit c st [BOp.cas ik new old, BOp.put vk v] .none).2 := by
+  unfold doCommit commit CommitShape
+  simp only [applyOps, applyOp]
+  cases st.get ik with
+  | none => right; cases c.q.casMissingNotFound <;> simp
+  | some cur =>
+    by_cases h : cur = old
+    · left; exact ⟨by simp [h], new, by simp [h]⟩
+    · right; simp [h]
+
+theorem creatorCreate_shape (c : Cfg) (st : Store) (key val : Bytes) (rev : Nat) :
+    CommitShape st (idxKey key) (encode key rev) val (creatorCreate c st key val rev []).1
+      (creatorCreate c st key val rev []).2.1 := by
+  have h0 := doCommit_pine_put c st (idxKey key) (be8 rev) (encode key rev) val
+  unfold creatorCreate
+  simp only [nextFault]
+  generalize doCommit c st [BOp.pine (idxKey key) (be8 rev), BOp.put (encode key rev) val] .none = r1 at *
+  obtain ⟨r, st'⟩ := r1
+  simp only at h0
+  cases r with
+  | conflict idx cv =>
+    have hst : st' = st := by
+      rcases h0 with ⟨h, _⟩ | ⟨_, h⟩
+      · cases h
+      · exact h
+    subst hst
+    simp only []
+    split
+    · exact doCommit_pine_put c _ _ _ _ _
+    · split
+      · right; simp
+      · split
+        · exact doCommit_cas_put c _ _ _ _ _ _
+        · right; simp
+  | ok => exact h0
+  | notFound => exact h0
+  | uncertain => exact h0
+  | err => exact h0
+
+/-! #### sequencer -/
+
+theorem sequence_invalid (s : BState) (w : WEvent) (h : w.valid = false) :
+    (sequence s w).store = s.store ∧ (sequence s w).ring = s.ring ∧
+    (sequence s w).committed = w.rev ∧ (sequence s w).dealt = max s.dealt w.rev := by
+  unfold sequence; simp [h]
+
+theorem sequence_valid (s : BState) (w : WEvent) (h : w.valid = true) :
+    (sequence s w).store = s.store ∧ (sequence s w).ring = s.ring.add (mkEvent w) ∧
+    (sequence s w).committed = w.rev ∧ (sequence s w).dealt = max s.dealt w.rev := by
+  unfold sequence; simp [h]
+
+/-- What one write request does to the state (no faults): it consumes revision `dealt + 1`; either
+it is acknowledged — both records are written and one event is published — or it is refused and
+neither the store nor the event window change. -/
+def StepShape (s : BState) (k stored : Bytes) (del : Bool) (res : WriteRes × BState) : Prop :=
+  res.2.dealt = s.dealt + 1 ∧ res.2.committed = s.dealt + 1 ∧
+  ((res.1 = .ok (s.dealt + 1) ∧
+      (∃ iv, res.2.store = (s.store.put (idxKey k) iv).put (encode k (s.dealt + 1)) stored) ∧
+      ∃ e : Event, res.2.ring = s.ring.add e ∧ e.rev = s.dealt + 1 ∧ e.key = k ∧
+        (e.verb = .delete ↔ del = true) ∧ (del = false → e.val = stored)) ∨
+   ((∀ r, res.1 ≠ .ok r) ∧ res.2.store = s.store ∧ res.2.ring = s.ring))
+
+theorem doCreate_shape (c : Cfg) (s : BState) (k v : Bytes) : StepShape s k v false (doCreate c s k v []) := by
+  have h0 := creatorCreate_shape c s.store k v (s.dealt + 1)
+  unfold doCreate
+  simp only []
+  generalize creatorCreate c s.store k v (s.dealt + 1) [] = cc at *
+  obtain ⟨r, st', fs'⟩ := cc
+  simp only at h0
+  unfold StepShape
+  cases r with
+  | ok =>
+    rcases h0 with ⟨_, iv, h⟩ | ⟨h, _⟩
+    · subst h
+      simp [sequence_valid]
+      exact ⟨⟨iv, rfl⟩, _, rfl, by simp [mkEvent]⟩
+    · exact absurd rfl h
+  | conflict i cv =>
+    rcases h0 with ⟨h, _⟩ | ⟨_, h⟩
+    · cases h
+    · subst h; simp [sequence_invalid]
+  | notFound =>
+    rcases h0 with ⟨h, _⟩ | ⟨_, h⟩
+    · cases h
+    · subst h; simp [sequence_invalid]
+  | uncertain =>
+    rcases h0 with ⟨h, _⟩ | ⟨_, h⟩
+    · cases h
+    · subst h; simp [sequence_invalid]
+  | err =>
+    rcases h0 with ⟨h, _⟩ | ⟨_, h⟩
+    · cases h
+    · subst h; simp [sequence_invalid]
+
+theorem seq_shape_commit (s : BState) (k stored : Bytes) (del : Bool) (r : CommitRes) (st' : Store) (w : WEvent)
+    (h0 : CommitShape s.store (idxKey k) (encode k (s.dealt + 1)) stored r st')
+    (hw : w.rev = s.dealt + 1) (hv : w.valid = (r == .ok)) (hk : w.key = k)
+    (hverb : w.verb = .delete ↔ del = true) (hval : del = false → w.val = stored)
+    (res1 : WriteRes) (hok : r = .ok → res1 = .ok (s.dealt + 1)) (hno : r ≠ .ok → ∀ x, res1 ≠ .ok x) :
+    StepShape s k stored del (res1, sequence { s with dealt := s.dealt + 1, store := st' } w) := by
+  unfold StepShape
+  rcases h0 with ⟨rfl, iv, rfl⟩ | ⟨hne, rfl⟩
+  · have hv' : w.valid = true := by rw [hv]; rfl
+    obtain ⟨h1, h2, h3, h4⟩ := sequence_valid { s with dealt := s.dealt + 1, store := (s.store.put (idxKey k) iv).put (encode k (s.dealt + 1)) stored } w hv'
+    refine ⟨by simp [h4, hw], by simp [h3, hw], .inl ?_⟩
+    rw [h1, h2]
+    exact ⟨hok rfl, ⟨iv, rfl⟩, mkEvent w, rfl, hw, hk, hverb, hval⟩
+  · have hv' : w.valid = false := by rw [hv]; cases r <;> first | rfl | exact absurd rfl hne
+    obtain ⟨h1, h2, h3, h4⟩ := sequence_invalid { s with dealt := s.dealt + 1, store := s.store } w hv'
+    refine ⟨by simp [h4, hw], by simp [h3, hw], .inr ?_⟩
+    rw [h1, h2]
+    exact ⟨hno hne, rfl, rfl⟩
+
+theorem seq_shape_invalid (s : BState) (k stored : Bytes) (del : Bool) (w : WEvent)
+    (hw : w.rev = s.dealt + 1) (hv : w.valid = false)
+    (res1 : WriteRes) (hno : ∀ x, res1 ≠ .ok x) :
+    StepShape s k stored del (res1, sequence { s with dealt := s.dealt + 1 } w) := by
+  unfold StepShape
+  obtain ⟨h1, h2, h3, h4⟩ := sequence_invalid { s with dealt := s.dealt + 1 } w hv
+  refine ⟨by simp [h4, hw], by simp [h3, hw], .inr ?_⟩
+  rw [h1, h2]
+  exact ⟨hno, rfl, rfl⟩
+
+theorem doUpdate_shape (c : Cfg) (s : BState) (k v : Bytes) (e : Nat) :
+    StepShape s k v false (doUpdate c s k v e []) := by
+  unfold doUpdate
+  simp only [nextFault]
+  split
+  · have h0 := creatorCreate_shape c s.store k v (s.dealt + 1)
+    generalize creatorCreate c s.store k v (s.dealt + 1) [] = cc at *
+    obtain ⟨r, st', fs'⟩ := cc
+    simp only at h0 ⊢
+    cases r
+    all_goals simp only []
+    all_goals (try split)
+    all_goals
+      refine seq_shape_commit s k v false _ st' _ h0 ?_ ?_ ?_ ?_ ?_ _ ?_ ?_
+      · rfl
+      · rfl
+      · rfl
+      · simp
+      · intro; rfl
+      · intro h; first | rfl | cases h
+      · intro h x; first | exact absurd rfl h | simp
+  · split
+    · exact seq_shape_invalid s k v false _ rfl rfl _ (by intro x; simp)
+    · have h0 := doCommit_cas_put c s.store (idxKey k) (be8 (s.dealt + 1)) (be8 e) (encode k (s.dealt + 1)) v
+      generalize doCommit c s.store [BOp.cas (idxKey k) (be8 (s.dealt + 1)) (be8 e), BOp.put (encode k (s.dealt + 1)) v] .none = cc at *
+      obtain ⟨r, st'⟩ := cc
+      simp only at h0 ⊢
+      cases r
+      all_goals simp only []
+      all_goals (try split)
+      all_goals
+        refine seq_shape_commit s k v false _ st' _ h0 ?_ ?_ ?_ ?_ ?_ _ ?_ ?_
+        · rfl
+        · rfl
+        · rfl
+        · simp
+        · intro; rfl
+        · intro h; first | rfl | cases h
+        · intro h x; first | exact absurd rfl h | simp
+
+theorem doDelete_shape (c : Cfg) (s : BState) (k : Bytes) (e : Nat) :
+    StepShape s k tombstone true (doDelete c s k e []) := by
+  unfold doDelete
+  simp only [nextFault]
+  split
+  · exact seq_shape_invalid s k tombstone true _ rfl rfl _ (by intro x; simp)
+  · rename_i oldVal modRev _
+    split
+    · exact seq_shape_invalid s k tombstone true _ rfl rfl _ (by intro x; simp)
+    · split
+      · split
+        · exact seq_shape_invalid s k tombstone true _ rfl rfl _ (by intro x; simp)
+        · exact seq_shape_invalid s k tombstone true _ rfl rfl _ (by intro x; simp)
+      · split
+        · exact seq_shape_invalid s k tombstone true _ rfl rfl _ (by intro x; simp)
+        · have h0 := doCommit_cas_put c s.store (idxKey k) (be8 (s.dealt + 1) ++ [0]) (be8 modRev)
+            (encode k (s.dealt + 1)) tombstone
+          generalize doCommit c s.store [BOp.cas (idxKey k) (be8 (s.dealt + 1) ++ [0]) (be8 modRev),
+            BOp.put (encode k (s.dealt + 1)) tombstone] .none = cc at *
+          obtain ⟨r, st'⟩ := cc
+          simp only at h0 ⊢
+          cases r
+          all_goals simp only []
+          all_goals (try split)
+          all_goals
+            refine seq_shape_commit s k tombstone true _ st' _ h0 ?_ ?_ ?_ ?_ ?_ _ ?_ ?_
+            · rfl
+            · rfl
+            · rfl
+            · simp
+            · intro h; cases h
+            · intro h; first | rfl | cases h
+            · intro h x; first | exact absurd rfl h | simp
+
+/-! ### the watch cache -/
+
+theorem filterMap_congr' {α β : Type _} {f g : α → Option β} {l : List α} (h : ∀ x ∈ l, f x = g x) :
+    l.filterMap f = l.filterMap g := by
+  induction l with
+  | nil => rfl
+  | cons x xs ih =>
+    simp only [List.filterMap_cons, h x (List.mem_cons_self ..),
+      ih (fun y hy => h y (List.mem_cons_of_mem _ hy))]
+
+theorem Ring.add_props (r : Ring) (ev : Event) (hs : r.s = 0) (he : r.e < r.cap) (hl : r.arr.length = r.cap) :
+    (r.add ev).window = r.window ++ [ev] ∧ (r.add ev).s = 0 ∧ (r.add ev).e = r.e + 1 ∧
+    (r.add ev).cap = r.cap ∧ (r.add ev).arr.length = r.cap := by
+  have hadd : r.add ev = { r with arr := r.arr.set (r.e % r.cap) (some ev), s := 0, e := r.e + 1 } := by
+    have : ¬ r.e = r.cap := by omega
+    simp only [Ring.add, hs]
+    simp [this]
+  rw [hadd]
+  refine ⟨?_, rfl, rfl, rfl, by simp [hl]⟩
+  have h2 : r.e % r.cap = r.e := Nat.mod_eq_of_lt he
+  simp only [Ring.window, hs, Nat.sub_zero, Ring.at, Nat.zero_add, h2]
+  rw [List.range_succ, List.filterMap_append]
+  congr 1
+  · apply filterMap_congr'
+    intro i hi
+    have hi' : i < r.e := List.mem_range.1 hi
+    have h1 : i % r.cap = i := Nat.mod_eq_of_lt (by omega)
+    rw [h1]
+    simp only [List.getD_eq_getElem?_getD]
+    rw [List.getElem?_set_ne (by omega)]
+  · simp [h2, List.getD_eq_getElem?_getD, hl, he]
+
+theorem Ring.foldl_add_window (evs : List Event) (r : Ring) (hs : r.s = 0) (he : r.e + evs.length ≤ r.cap)
+    (hl : r.arr.length = r.cap) : (evs.foldl Ring.add r).window = r.window ++ evs := by
+  induction evs generalizing r with
+  | nil => simp
+  | cons ev evs ih =>
+    simp only [List.length_cons] at he
+    obtain ⟨h1, h2, h3, h4, h5⟩ := Ring.add_props r ev hs (by omega) hl
+    simp only [List.foldl_cons]
+    rw [ih (r.add ev) h2 (by rw [h3, h4]; omega) (by rw [h5, h4]), h1]
+    simp
+
+theorem Ring.new_window (cap : Nat) (evs : List Event) (h : evs.length ≤ cap) :
+    (evs.foldl Ring.add (Ring.new cap)).window = evs := by
+  rw [Ring.foldl_add_window evs (Ring.new cap) rfl (by simpa [Ring.new] using h) (by simp [Ring.new])]
+  simp [Ring.window, Ring.new]
+
+
+/-! ### runs: request sequences at the level of (state, history) -/
+
+/-- an event as published and a history write describe the same change -/
+def EvMatch (e : Event) (w : HWrite) : Prop :=
+  e.rev = w.rev ∧ e.key = w.key ∧ (w.val = none ↔ e.verb = .delete) ∧ ∀ v, w.val = some v → e.val = v
+
+/-- what a value is stored as -/
+def wval (v : Option Bytes) : Bytes := v.getD tombstone
+
+/-- One request for key `k` writing `val` (`none` = delete), seen on the pair (state, history):
+revision `dealt + 1` is consumed; either the write is acknowledged — recorded, stored, published —
+or nothing but the counters changes. -/
+def HStep (sh sh' : BState × List HWrite) (k : Bytes) (val : Option Bytes) : Prop :=
+  sh'.1.dealt = sh.1.dealt + 1 ∧ sh'.1.committed = sh.1.dealt + 1 ∧
+  ((sh'.2 = sh.2 ++ [⟨k, sh.1.dealt + 1, val⟩] ∧
+      (∃ iv, sh'.1.store = (sh.1.store.put (idxKey k) iv).put (encode k (sh.1.dealt + 1)) (wval val)) ∧
+      ∃ e : Event, sh'.1.ring = sh.1.ring.add e ∧ EvMatch e ⟨k, sh.1.dealt + 1, val⟩) ∨
+   (sh'.2 = sh.2 ∧ sh'.1.store = sh.1.store ∧ sh'.1.ring = sh.1.ring))
+
+/-- the empty backend whose revision counter starts at `init` -/
+def fresh0 (init cache : Nat) : BState := { ring := Ring.new cache, dealt := init, committed := init }
+
+/-- states reachable from the empty backend by `n` well-formed requests -/
+inductive Run (init cache : Nat) : Nat → BState × List HWrite → Prop
+  | zero : Run init cache 0 (fresh0 init cache, [])
+  | step {n : Nat} {sh sh' : BState × List HWrite} {k : Bytes} {val : Option Bytes} :
+      Run init cache n sh → HStep sh sh' k val → Alphabet k → val ≠ some tombstone → Run init cache (n + 1) sh'
+
+/-- `StepShape` of an acknowledged-or-refused request gives an `HStep` on the recorded history -/
+theorem HStep.of_shape {s : BState} {h : List HWrite} {k stored : Bytes} {del : Bool} {res : WriteRes × BState}
+    (hs : StepShape s k stored del res) (val : Option Bytes) (hst : wval val = stored)
+    (hdel : val = none ↔ del = true) (hval : ∀ v, val = some v → stored = v) (h' : List HWrite)
+    (hok : ∀ r, res.1 = .ok r → h' = h ++ [⟨k, r, val⟩]) (hno : (∀ r, res.1 ≠ .ok r) → h' = h) :
+    HStep (s, h) (res.2, h') k val := by
+  obtain ⟨h1, h2, h3⟩ := hs
+  refine ⟨h1, h2, ?_⟩
+  rcases h3 with ⟨hr, ⟨iv, hst'⟩, e, he1, he2, he3, he4, he5⟩ | ⟨hr, hst', hring⟩
+  · left
+    refine ⟨hok _ hr, ⟨iv, by rw [hst]; exact hst'⟩, e, he1, he2, he3, ?_, ?_⟩
+    · simp only; rw [hdel, he4]
+    · intro v hv
+      simp only at hv
+      have : del = false := by
+        cases del with
+        | false => rfl
+        | true => rw [hdel.2 rfl] at hv; cases hv
+      rw [he5 this]; exact hval v hv
+  · right; exact ⟨hno hr, hst', hring⟩
+
+/-! #### counters and history -/
+
+theorem Run.basic {init cache n : Nat} {sh : BState × List HWrite} (hr : Run init cache n sh) :
+    sh.1.dealt = init + n ∧ sh.1.committed = init + n ∧ RevSorted sh.2 ∧
+    (∀ w ∈ sh.2, init < w.rev ∧ w.rev ≤ init + n ∧ Alphabet w.key ∧ w.val ≠ some tombstone) := by
+  induction hr with
+  | zero => simp [fresh0, RevSorted]
+  | step hr hstep hk hv ih =>
+    rename_i n sh sh' k val
+    obtain ⟨ih1, ih2, ih3, ih4⟩ := ih
+    obtain ⟨h1, h2, h3⟩ := hstep
+    refine ⟨by omega, by omega, ?_⟩
+    rcases h3 with ⟨hh, _, _⟩ | ⟨hh, _, _⟩
+    · rw [hh]
+      constructor
+      · rw [RevSorted, List.pairwise_append]
+        refine ⟨ih3, by simp, ?_⟩
+        intro a ha b hb
+        simp only [List.mem_singleton] at hb
+        subst hb
+        have := ih4 a ha
+        simp only; omega
+      · intro w hw
+        rcases List.mem_append.1 hw with hw | hw
+        · have := ih4 w hw
+          exact ⟨this.1, by omega, this.2.2⟩
+        · simp only [List.mem_singleton] at hw
+          subst hw
+          exact ⟨by simp only; omega, by simp only; omega, hk, hv⟩
+    · rw [hh]
+      refine ⟨ih3, ?_⟩
+      intro w hw
+      have := ih4 w hw
+      exact ⟨this.1, by omega, this.2.2⟩
+
+/-! #### published events -/
+
+inductive EvsMatch : List Event → List HWrite → Prop
+  | nil : EvsMatch [] []
+  | snoc {evs : List Event} {h : List HWrite} {e : Event} {w : HWrite} :
+      EvsMatch evs h → EvMatch e w → EvsMatch (evs ++ [e]) (h ++ [w])
+
+theorem EvsMatch.map_eq {evs : List Event} {h : List HWrite} (hm : EvsMatch evs h) :
+    evs.map (fun e => (e.rev, e.key)) = h.map (fun w => (w.rev, w.key)) := by
+  induction hm with
+  | nil => rfl
+  | snoc _ he ih => simp [ih, he.1, he.2.1]
+
+theorem EvsMatch.length_eq {evs : List Event} {h : List HWrite} (hm : EvsMatch evs h) :
+    evs.length = h.length := by
+  induction hm with
+  | nil => rfl
+  | snoc _ _ ih => simp [ih]
+
+theorem EvsMatch.mem {evs : List Event} {h : List HWrite} (hm : EvsMatch evs h) :
+    ∀ e ∈ evs, ∃ w ∈ h, EvMatch e w := by
+  induction hm with
+  | nil => simp
+  | snoc _ he ih =>
+    intro e' he'
+    rcases List.mem_append.1 he' with he' | he'
+    · obtain ⟨w, hw, hm⟩ := ih e' he'
+      exact ⟨w, List.mem_append_left _ hw, hm⟩
+    · simp only [List.mem_singleton] at he'
+      subst he'
+      exact ⟨_, List.mem_append_right _ (List.mem_singleton.2 rfl), he⟩
+
+theorem Run.ring {init cache n : Nat} {sh : BState × List HWrite} (hr : Run init cache n sh) :
+    ∃ evs, sh.1.ring = evs.foldl Ring.add (Ring.new cache) ∧ EvsMatch evs sh.2 ∧ sh.2.length ≤ n := by
+  induction hr with
+  | zero => exact ⟨[], rfl, .nil, Nat.le_refl _⟩
+  | step hr hstep hk hv ih =>
+    obtain ⟨evs, ih1, ih2, ih3⟩ := ih
+    obtain ⟨_, _, h3⟩ := hstep
+    rcases h3 with ⟨hh, _, e, he, hm⟩ | ⟨hh, _, hring⟩
+    · refine ⟨evs ++ [e], ?_, ?_, ?_⟩
+      · rw [he, ih1, List.foldl_append]; rfl
+      · rw [hh]; exact .snoc ih2 hm
+      · rw [hh]; simp; omega
+    · exact ⟨evs, by rw [hring, ih1], by rw [hh]; exact ih2, by rw [hh]; omega⟩
+
+theorem revSorted_inj {h : List HWrite} (hs : RevSorted h) {w w' : HWrite} (hw : w ∈ h) (hw' : w' ∈ h)
+    (he : w.rev = w'.rev) : w = w' := by
+  induction h with
+  | nil => cases hw
+  | cons x xs ih =>
+    have hs' := List.pairwise_cons.1 hs
+    rcases List.mem_cons.1 hw with h1 | h1 <;> rcases List.mem_cons.1 hw' with h2 | h2
+    · rw [h1, h2]
+    · subst h1; have := hs'.1 w' h2; omega
+    · subst h2; have := hs'.1 w h1; omega
+    · exact ih hs'.2 h1 h2
+
+theorem Run.events {init cache n : Nat} {sh : BState × List HWrite} (hr : Run init cache n sh) (hfit : n ≤ cache) :
+    sh.1.ring.window.map (fun e => (e.rev, e.key)) = sh.2.map (fun w => (w.rev, w.key)) ∧
+    (∀ e ∈ sh.1.ring.window, ∀ w ∈ sh.2, e.rev = w.rev →
+        (w.val = none ↔ e.verb = .delete) ∧ (∀ v, w.val = some v → e.val = v)) := by
+  obtain ⟨evs, h1, h2, h3⟩ := hr.ring
+  have hw : sh.1.ring.window = evs := by
+    rw [h1]; exact Ring.new_window cache evs (by rw [h2.length_eq]; omega)
+  rw [hw]
+  refine ⟨h2.map_eq, ?_⟩
+  intro e he w hw' hrev
+  obtain ⟨w', hw'', hm⟩ := h2.mem e he
+  have : w' = w := revSorted_inj hr.basic.2.2.1 hw'' hw' (by rw [← hm.1, hrev])
+  subst this
+  exact ⟨hm.2.2.1, hm.2.2.2⟩
+
+
+/-! ### snapshot lookup = last write -/
+
+theorem Snap.get_del_self (S : Snap) (k : Bytes) : (S.del k).get k = none := by
+  unfold Snap.get Snap.del
+  rw [Option.map_eq_none_iff, List.find?_eq_none]
+  intro x hx
+  have := (List.mem_filter.1 hx).2
+  simpa using this
+
+theorem Snap.get_del_ne (S : Snap) (k k' : Bytes) (h : k' ≠ k) : (S.del k').get k = S.get k := by
+  unfold Snap.get Snap.del
+  congr 1
+  induction S with
+  | nil => rfl
+  | cons x xs ih =>
+    by_cases hx : x.1 = k'
+    · have b1 : (x.1 != k') = false := by simp [hx]
+      have b2 : (x.1 == k) = false := by rw [hx]; simpa using h
+      simp only [List.filter_cons, b1, List.find?_cons, b2, Bool.false_eq_true, if_false]
+      exact ih
+    · have b1 : (x.1 != k') = true := by simpa using hx
+      by_cases hk : x.1 = k
+      · have b2 : (x.1 == k) = true := by simpa using hk
+        simp only [List.filter_cons, b1, if_true, List.find?_cons, b2]
+      · have b2 : (x.1 == k) = false := by simpa using hk
+        simp only [List.filter_cons, b1, if_true, List.find?_cons, b2]
+        exact ih
+
+theorem Snap.apply_get_self (S : Snap) (w : HWrite) :
+    (S.apply w).get w.key = w.val.map (fun v => (v, w.rev)) := by
+  unfold Snap.apply
+  cases w.val with
+  | none => exact Snap.get_del_self S w.key
+  | some v =>
+    have := Snap.get_del_self S w.key
+    unfold Snap.get at this ⊢
+    rw [Option.map_eq_none_iff] at this
+    simp [Snap.set, List.find?_append, this]
+
+theorem Snap.apply_get_ne (S : Snap) (w : HWrite) (k : Bytes) (h : w.key ≠ k) :
+    (S.apply w).get k = S.get k := by
+  unfold Snap.apply
+  cases w.val with
+  | none => exact Snap.get_del_ne S k w.key h
+  | some v =>
+    have := Snap.get_del_ne S k w.key h
+    unfold Snap.get at this ⊢
+    simp only [Snap.set, List.find?_append]
+    have hn : List.find? (fun e => e.1 == k) [(w.key, v, w.rev)] = none := by simp [h]
+    rw [hn, Option.or_none, this]
+
+/-- what a client reads off a write -/
+def wread (w : HWrite) : Option (Bytes × Nat) := w.val.map (fun v => (v, w.rev))
+
+theorem foldl_apply_get (l : List HWrite) (S : Snap) (k : Bytes) :
+    (l.foldl Snap.apply S).get k =
+      match (l.filter (fun w => w.key == k)).getLast? with
+      | some w => wread w
+      | none => S.get k := by
+  induction l generalizing S with
+  | nil => rfl
+  | cons w ws ih =>
+    simp only [List.foldl_cons, ih, List.filter_cons]
+    by_cases hw : w.key = k
+    · simp only [hw, beq_self_eq_true, if_true, List.getLast?_cons]
+      cases (List.filter (fun w => w.key == k) ws).getLast? with
+      | some w' => rfl
+      | none => simp only [Option.getD_none]; rw [← hw]; exact Snap.apply_get_self S w
+    · have hw' : (w.key == k) = false := by simpa using hw
+      simp only [hw', Bool.false_eq_true, if_false]
+      cases (List.filter (fun w => w.key == k) ws).getLast? with
+      | some w' => rfl
+      | none => exact Snap.apply_get_ne S w k hw
+
+/-- the newest write of `k` at or below `R` -/
+def lastW (h : List HWrite) (k : Bytes) (R : Nat) : Option HWrite :=
+  (h.filter (fun w => w.key == k && decide (w.rev ≤ R))).getLast?
+
+theorem snapshotAt_get (h : List HWrite) (R : Nat) (k : Bytes) :
+    (snapshotAt h R).get k = (lastW h k R).bind wread := by
+  unfold snapshotAt lastW
+  rw [foldl_apply_get, List.filter_filter]
+  cases (List.filter (fun a => (a.key == k) && decide (a.rev ≤ R)) h).getLast? <;> rfl
+
+
+/-! ### the store as a map of the history -/
+
+theorem Store.mem_of_get {s : Store} {k v : Bytes} (h : s.get k = some v) : (k, v) ∈ s := by
+  induction s with
+  | nil => simp [Store.get] at h
+  | cons x xs ih =>
+    obtain ⟨k0, v0⟩ := x
+    simp only [Store.get] at h
+    cases hc : cmp k k0 with
+    | lt => simp [hc] at h
+    | eq =>
+      simp only [hc, Option.some.injEq] at h
+      rw [cmp_eq_iff.1 hc, h]; exact List.mem_cons_self ..
+    | gt =>
+      simp only [hc] at h
+      exact List.mem_cons_of_mem _ (ih h)
+
+theorem Store.get_of_mem {s : Store} (hs : s.Sorted) {k v : Bytes} (h : (k, v) ∈ s) : s.get k = some v := by
+  induction s with
+  | nil => cases h
+  | cons x xs ih =>
+    obtain ⟨k0, v0⟩ := x
+    have hs' := Store.sorted_cons.1 hs
+    rcases List.mem_cons.1 h with h | h
+    · cases h; simp [Store.get]
+    · have := hs'.1 (k, v) h
+      simp only at this
+      have hgt : cmp k k0 = .gt := cmp_gt_iff.2 this
+      simp only [Store.get, hgt]
+      exact ih hs'.2 h
+
+/-- The store holds, for every acknowledged write, its version record — and nothing else at
+non-zero revisions; all its keys are encoded keys over the alphabet. -/
+def StoreInv (st : Store) (h : List HWrite) : Prop :=
+  st.Sorted ∧
+  (∀ kv ∈ st, ∃ k r, kv.1 = encode k r ∧ Alphabet k ∧ r < 2 ^ 64) ∧
+  (∀ k r val, Alphabet k → 0 < r → r < 2 ^ 64 →
+    (st.get (encode k r) = some val ↔ ∃ w ∈ h, w.key = k ∧ w.rev = r ∧ wval w.val = val))
+
+theorem Run.store {init cache n : Nat} {sh : BState × List HWrite} (hr : Run init cache n sh)
+    (hb : init + n < 2 ^ 64) : StoreInv sh.1.store sh.2 := by
+  induction hr with
+  | zero => exact ⟨trivial, by simp [fresh0], by simp [fresh0, Store.get]⟩
+  | step hr hstep hk hv ih =>
+    rename_i n sh sh' k val
+    obtain ⟨ih1, ih2, ih3⟩ := ih (by omega)
+    obtain ⟨hd, _, _, hrevs⟩ := hr.basic
+    obtain ⟨_, _, h3⟩ := hstep
+    rcases h3 with ⟨hh, ⟨iv, hst⟩, _⟩ | ⟨hh, hst, _⟩
+    · have hrev : sh.1.dealt + 1 < 2 ^ 64 := by omega
+      have hs1 := Store.put_sorted _ ih1 (idxKey k) iv
+      rw [hh, hst]
+      refine ⟨Store.put_sorted _ hs1 _ _, ?_, ?_⟩
+      · intro kv hkv
+        rcases Store.mem_put hkv with h | h
+        · exact ⟨k, _, h, hk, hrev⟩
+        · rcases Store.mem_put h with h | h
+          · exact ⟨k, 0, h, hk, by decide⟩
+          · exact ih2 kv h
+      · intro k' r' val' hk' hr0 hr'
+        rw [Store.get_put _ hs1, Store.get_put _ ih1]
+        by_cases he : encode k' r' = encode k (sh.1.dealt + 1)
+        · obtain ⟨rfl, rfl⟩ := encode_inj hr' hrev he
+          simp only [if_true, Option.some.injEq, List.mem_append, List.mem_singleton]
+          constructor
+          · intro h; exact ⟨_, .inr rfl, rfl, rfl, h⟩
+          · rintro ⟨w, hw | hw, h1, h2, h3⟩
+            · have := (hrevs w hw).2.1; omega
+            · subst hw; exact h3
+        · have he0 : encode k' r' ≠ idxKey k := by
+            intro h0
+            have := (encode_inj hr' (by decide) h0).2
+            omega
+          simp only [he, he0, if_false, ih3 k' r' val' hk' hr0 hr', List.mem_append, List.mem_singleton]
+          constructor
+          · rintro ⟨w, hw, h⟩; exact ⟨w, .inl hw, h⟩
+          · rintro ⟨w, hw | hw, h1, h2, h3⟩
+            · exact ⟨w, hw, h1, h2, h3⟩
+            · subst hw
+              simp only at h1 h2
+              exact absurd (by rw [h1, h2]) he
+    · rw [hh, hst]; exact ⟨ih1, ih2, ih3⟩
+
+/-! ### the store as decoded records -/
+
+def decRec (kv : Bytes × Bytes) : Rec :=
+  match decode kv.1 with
+  | .ok k r => { key := k, rev := r, val := kv.2, ik := kv.1 }
+  | _ => { key := [], rev := 0, val := kv.2, ik := kv.1 }
+
+theorem decRec_encode (k : Bytes) (r : Nat) (hr : r < 2 ^ 64) (v : Bytes) :
+    decRec (encode k r, v) = { key := k, rev := r, val := v, ik := encode k r } := by
+  simp [decRec, decode_encode k r hr]
+
+structure DecodedStore (st : Store) (recs : List Rec) : Prop where
+  enc : st = encodeStore recs
+  sorted : SortedRecs recs
+  wf : ∀ r ∈ recs, Alphabet r.key ∧ r.rev < 2 ^ 64
+  get_of_mem : ∀ r ∈ recs, st.get (encode r.key r.rev) = some r.val
+  mem_of_get : ∀ k r v, r < 2 ^ 64 → st.get (encode k r) = some v → ∃ x ∈ recs, x.key = k ∧ x.rev = r ∧ x.val = v
+
+theorem decodedStore (st : Store) (hs : st.Sorted)
+    (hk : ∀ kv ∈ st, ∃ k r, kv.1 = encode k r ∧ Alphabet k ∧ r < 2 ^ 64) :
+    DecodedStore st (st.map decRec) := by
+  have hdec : ∀ kv ∈ st, ∃ k r, Alphabet k ∧ r < 2 ^ 64 ∧ kv.1 = encode k r ∧
+      decRec kv = { key := k, rev := r, val := kv.2, ik := encode k r } := by
+    intro kv hkv
+    obtain ⟨k, r, h1, h2, h3⟩ := hk kv hkv
+    refine ⟨k, r, h2, h3, h1, ?_⟩
+    obtain ⟨a, b⟩ := kv
+    simp only at h1
+    subst h1
+    exact decRec_encode k r h3 b
+  refine ⟨?_, ?_, ?_, ?_, ?_⟩
+  · unfold encodeStore
+    rw [List.map_map]
+    symm
+    calc List.map _ st = List.map id st := by
+          apply List.map_congr_left
+          intro kv hkv
+          obtain ⟨k, r, _, _, h1, h2⟩ := hdec kv hkv
+          simp only [Function.comp, h2, id]
+          rw [← h1]
+      _ = st := List.map_id st
+  · unfold SortedRecs
+    rw [List.pairwise_map]
+    refine List.Pairwise.imp_of_mem ?_ ((Store.sorted_iff_pairwise st).1 hs)
+    intro a b ha hb hlt
+    obtain ⟨k1, r1, ha1, hr1, h1, e1⟩ := hdec a ha
+    obtain ⟨k2, r2, ha2, hr2, h2, e2⟩ := hdec b hb
+    rw [h1, h2, encode_cmp ha1 ha2 hr1 hr2] at hlt
+    rw [e1, e2]
+    unfold recLt
+    simp only
+    by_cases hkk : k1 = k2
+    · right; simp only [hkk, if_true] at hlt; exact ⟨hkk, Nat.compare_eq_lt.1 hlt⟩
+    · left; simpa [hkk] using hlt
+  · intro r hr
+    obtain ⟨kv, hkv, rfl⟩ := List.mem_map.1 hr
+    obtain ⟨k, r, h1, h2, _, e⟩ := hdec kv hkv
+    rw [e]; exact ⟨h1, h2⟩
+  · intro r hr
+    obtain ⟨kv, hkv, rfl⟩ := List.mem_map.1 hr
+    obtain ⟨k, r, _, _, h1, e⟩ := hdec kv hkv
+    rw [e]
+    simp only
+    apply Store.get_of_mem hs
+    rw [← h1]; exact hkv
+  · intro k r v hr hg
+    have hm := Store.mem_of_get hg
+    refine ⟨decRec (encode k r, v), List.mem_map.2 ⟨_, hm, rfl⟩, ?_⟩
+    rw [decRec_encode k r hr v]
+    exact ⟨rfl, rfl, rfl⟩
+
+/-! ### newest version in the store = newest write in the history -/
+
+theorem visible_eq_lastW {recs : List Rec} {h : List HWrite} (hs : SortedRecs recs) (hh : RevSorted h)
+    (hpos : ∀ w ∈ h, 0 < w.rev)
+    (h1 : ∀ x ∈ recs, 0 < x.rev → ∃ w ∈ h, w.key = x.key ∧ w.rev = x.rev ∧ wval w.val = x.val)
+    (h2 : ∀ w ∈ h, ∃ x ∈ recs, x.key = w.key ∧ x.rev = w.rev ∧ x.val = wval w.val)
+    (R : Nat) (k : Bytes) :
+    (visible R recs k).map (fun r => (r.val, r.rev)) = (lastW h k R).map (fun w => (wval w.val, w.rev)) := by
+  cases hl : lastW h k R with
+  | none =>
+    have hnone : ∀ w ∈ h, ¬ (w.key = k ∧ w.rev ≤ R) := by
+      have := List.filter_eq_nil_iff.1 (List.getLast?_eq_none_iff.1 hl)
+      intro w hw hc
+      exact this w hw (by simp [hc.1, hc.2])
+    have : visible R recs k = none := by
+      rw [visible_eq_none_iff]
+      intro x hx
+      cases hv : vis R k x with
+      | false => rfl
+      | true =>
+        obtain ⟨a, b, c⟩ := vis_iff.1 hv
+        obtain ⟨w, hw, e1, e2, _⟩ := h1 x hx b
+        exact absurd ⟨e1.trans a, by omega⟩ (hnone w hw)
+    rw [this]; rfl
+  | some w =>
+    have hwf := List.mem_filter.1 (List.mem_of_getLast? hl)
+    have hwk : w.key = k ∧ w.rev ≤ R := by simpa using hwf.2
+    obtain ⟨x, hx, ex1, ex2, ex3⟩ := h2 w hwf.1
+    have hxv : vis R k x = true := vis_iff.2 ⟨ex1.trans hwk.1, by rw [ex2]; exact hpos w hwf.1, by rw [ex2]; exact hwk.2⟩
+    cases hv : visible R recs k with
+    | none => rw [visible_eq_none_iff] at hv; rw [hv x hx] at hxv; cases hxv
+    | some x' =>
+      obtain ⟨hx', hxv'⟩ := visible_some_mem hv
+      obtain ⟨a, b, c⟩ := vis_iff.1 hxv'
+      obtain ⟨w', hw', e1, e2, e3⟩ := h1 x' hx' b
+      -- w' is below w in the history, x is below x' in the store
+      have hw'f : w' ∈ h.filter (fun w => w.key == k && decide (w.rev ≤ R)) :=
+        List.mem_filter.2 ⟨hw', by simp [e1, a, e2, c]⟩
+      have hle1 : w'.rev ≤ w.rev := by
+        rcases pairwise_getLast (hh.filter _) hl hw'f with h | h
+        · rw [h]; exact Nat.le_refl _
+        · exact Nat.le_of_lt h
+      have hxf : x ∈ recs.filter (vis R k) := List.mem_filter.2 ⟨hx, hxv⟩
+      have hle2 : x.rev ≤ x'.rev := by
+        rcases pairwise_getLast (List.Pairwise.filter _ hs) (visible_def R recs k ▸ hv) hxf with h | h
+        · rw [h]; exact Nat.le_refl _
+        · rcases h with h | ⟨_, h⟩
+          · rw [ex1, hwk.1, a] at h; simp at h
+          · exact Nat.le_of_lt h
+      have hrev : w'.rev = w.rev := by omega
+      have : w' = w := revSorted_inj hh hw' hwf.1 hrev
+      subst this
+      simp only [Option.map_some, ← e2, ← e3]
+
+/-- Point reads of a reachable state are the snapshot of the history. -/
+theorem Run.read {init cache n : Nat} {sh : BState × List HWrite} (hr : Run init cache n sh)
+    (hb : init + n < 2 ^ 64) (c : Cfg) (k : Bytes) (hk : Alphabet k) (R : Nat) (hR : 0 < R) (hR2 : R < 2 ^ 64) :
+    (match bget c sh.1.store k R with
+     | .found v m => some (v, m)
+     | .notFound _ => none) = (snapshotAt sh.2 R).get k := by
+  obtain ⟨hs, hkeys, hget⟩ := hr.store hb
+  obtain ⟨_, _, hsorted, hrevs⟩ := hr.basic
+  have hd := decodedStore sh.1.store hs hkeys
+  have hR0 : (R == 0) = false := by simp; omega
+  have hgi : getInternal c sh.1.store k R = (lastW sh.2 k R).map (fun w => (wval w.val, w.rev)) := by
+    conv => lhs; rw [hd.enc]
+    rw [getInternal_encodeStore c hd.sorted hd.wf k hk R hR2]
+    simp only [hR0, Bool.false_eq_true, if_false]
+    apply visible_eq_lastW hd.sorted hsorted (fun w hw => by have := (hrevs w hw).1; omega)
+    · intro x hx hpos
+      have := hd.wf x hx
+      exact (hget x.key x.rev x.val this.1 hpos this.2).1 (hd.get_of_mem x hx)
+    · intro w hw
+      obtain ⟨a, b, c', _⟩ := hrevs w hw
+      have hlt : w.rev < 2 ^ 64 := by omega
+      exact hd.mem_of_get w.key w.rev _ hlt ((hget w.key w.rev _ c' (by omega) hlt).2 ⟨w, hw, rfl, rfl, rfl⟩)
+  rw [snapshotAt_get]
+  unfold bget
+  rw [hgi]
+  cases hl : lastW sh.2 k R with
+  | none => rfl
+  | some w =>
+    have hw := (List.mem_filter.1 (List.mem_of_getLast? hl)).1
+    have hnt := (hrevs w hw).2.2.2
+    simp only [Option.map_some, Option.bind_some, wread]
+    cases hv : w.val with
+    | none => simp [wval, isTomb]
+    | some v =>
+      have : v ≠ tombstone := by intro e; rw [hv, e] at hnt; exact hnt rfl
+      simp [wval, isTomb, this]
+
 end KB
+
